@@ -177,6 +177,31 @@ theorem C18_shape_conversion (run : Nat) (p : Path) (o : OldProp) :
     Shape.convertedG Gen.extraRules run p o = some (converted run p o) :=
   shape_conversion run p o
 
+/-- The readers through which "reads as before" is stated (`nixio/dimensions.py`): `RangeDimension.is_alias` as
+written evaluates to the model's `isAliasRead`; the getters `ticks`, `unit`, `label` as written choose the source
+(`_redirgrp` / the `DimensionLink` / the dimension group) that the model's `readDim` reads. -/
+theorem C18_shape_readers (a : Arr) (d : Dim) :
+    Shape.firstMatch (Shape.readEnv d) Gen.isAliasRules Gen.isAliasDefault = some (isAliasRead d) ∧
+    Shape.firstMatch (Shape.getterEnv (isAliasRead d) d) Gen.ticksSource.1 Gen.ticksSource.2 = some (Shape.sourceOf d) ∧
+    Shape.firstMatch (Shape.getterEnv (isAliasRead d) d) Gen.unitSource.1 Gen.unitSource.2 = some (Shape.sourceOf d) ∧
+    Shape.firstMatch (Shape.getterEnv (isAliasRead d) d) Gen.labelSource.1 Gen.labelSource.2 = some (Shape.sourceOf d) ∧
+    readDim a d = (match Shape.sourceOf d with
+      | .redirect => ⟨a.data, a.unit, a.label⟩
+      | .link => ⟨a.data, a.unit, a.label⟩
+      | .own => ⟨d.ticks.getD "[]", d.unit, d.label⟩) :=
+  ⟨shape_is_alias d, (shape_sources d).1, (shape_sources d).2.1, (shape_sources d).2.2, readDim_source a d⟩
+
+/-- Order of the writes of one conversion as written: the old dataset is deleted first, the main property is
+created next, then one operation per extras rule in rule order (`convertPropTake` cuts this sequence); a dimension
+gets its link group first, the alias link is removed last (`Dim.halfConverted` is the state in between). -/
+theorem C18_shape_ops :
+    Gen.propOps = ["delete", "create:main"] ++
+      Gen.extraRules.map (fun r => (if r.elseOfPrev then "extra-else:" else "extra:") ++ r.field) ∧
+    Gen.dimOps.head? = some "create:link" ∧ Gen.dimOps.getLast? = some "delete:alias" ∧
+    (∀ x ∈ ["target", "attr:entity_id", "attr:data_object_type", "attr:index", "attr:created_at",
+      "attr:updated_at"], x ∈ Gen.dimOps) ∧ Gen.dimOps.length = 8 := by
+  decide
+
 /-! ## content -/
 
 /-- "the upgrade succeeds and the file reads as before": every compound property is now a plain one
